@@ -310,6 +310,35 @@ fn own_units(tier: Tier) -> Vec<Unit> {
             ctx.panic_only = false;
         },
     ));
+    // ---- every console-write scenario of C14 (all text shapes) with a socket attached and log arguments evaluated
+    units.push(Unit::new(
+        "syscall-texts",
+        8,
+        "every write scenario of C14 (lengths 0-4096, code-point classes, multi-byte characters in every split position, texts of multi-byte characters only, newlines with long tails, terminal control sequences) executed by TRAPA #0 with the message channel attached and log arguments evaluated: no unwind",
+        move |ctx, chunk| {
+            ctx.panic_only = true;
+            crate::hv::panics::eval_log_args(true);
+            super::mes::ensure_socket(ctx);
+            let scn = super::mes::write_scenarios(tier);
+            for (i, s) in scn.iter().enumerate() {
+                if i % 8 != chunk as usize {
+                    continue;
+                }
+                let mut c = super::mes::setup_write(&mut ctx.m, s);
+                // the counterexample file must carry the text: argument block and buffer as an image of the case
+                c.code_sticky = false;
+                let mut block = 1u32.to_be_bytes().to_vec();
+                block.extend_from_slice(&s.buf.to_be_bytes());
+                block.extend_from_slice(&(s.text.len() as u32).to_be_bytes());
+                c.image = vec![(s.arg, block), (s.buf, s.text.clone())];
+                ctx.run(&c);
+                ctx.m.end_sticky();
+                let _ = super::mes::drain();
+            }
+            crate::hv::panics::eval_log_args(false);
+            ctx.panic_only = false;
+        },
+    ));
     {
         let tokens: [&str; 20] = ["cmd", "u8", "ioport", "pause", "start", "stop", "", "0", "1", "b", "c", "ff", "100", "430300", "200000", "fee000", "ffffffff", "100000000", "zz", "-1"];
         let total: u64 = (1..=4u32).map(|l| 20u64.pow(l)).sum();
